@@ -464,7 +464,7 @@ Section Access.
     set_item_with lc st name (KLabel x) (OScalar v) = (set_data st name sr (upd p v data), Ret tt).
   Proof.
     intros Hp. destruct (pos_Some _ _ _ Hp) as [_ Hlt]. destruct (lc_present x p Hp) as [fl Hl].
-    unfold set_item_with. rewrite Hl, Hvar. fold data. rewrite py_set_nat by lia. reflexivity.
+    unfold set_item_with. rewrite Hvar, Hl. fold data. rewrite py_set_nat by lia. reflexivity.
   Qed.
 
   (* --- slices --- *)
@@ -511,7 +511,7 @@ Section Access.
     set_item_with lc st name (KSlice a b s) w = (set_data st name sr d', Ret tt).
   Proof.
     intros ND Ha Hb Hs L HA. unfold set_item_with.
-    rewrite (resolve_slice_ok a b s pa pb ND Ha Hb), Hvar. fold data.
+    rewrite Hvar, (resolve_slice_ok a b s pa pb ND Ha Hb). fold data.
     unfold np_slice_positions. replace (step_of s =? 0) with false by lia. replace (0 <? step_of s) with true by lia.
     simpl. fold L. rewrite HA. reflexivity.
   Qed.
@@ -522,7 +522,7 @@ Section Access.
     set_item_with lc st name (KSlice a b s) w = (st, Raise e).
   Proof.
     intros ND Ha Hb Hs HA. unfold set_item_with.
-    rewrite (resolve_slice_ok a b s pa pb ND Ha Hb), Hvar. fold data.
+    rewrite Hvar, (resolve_slice_ok a b s pa pb ND Ha Hb). fold data.
     unfold np_slice_positions. replace (step_of s =? 0) with false by lia. replace (0 <? step_of s) with true by lia.
     simpl. rewrite HA. reflexivity.
   Qed.
@@ -554,7 +554,7 @@ Section Access.
   Theorem missing_label_get x : pos x ls = None -> get_item_with lc st name (KLabel x) = Raise KeyError.
   Proof. intros H. unfold get_item_with. rewrite Hvar. simpl. rewrite (lc_absent x H). reflexivity. Qed.
   Theorem missing_label_set x w : pos x ls = None -> set_item_with lc st name (KLabel x) w = (st, Raise KeyError).
-  Proof. intros H. unfold set_item_with. rewrite (lc_absent x H). reflexivity. Qed.
+  Proof. intros H. unfold set_item_with. destruct (lookup name (c_vars st)); [|reflexivity]. rewrite (lc_absent x H). reflexivity. Qed.
 
   (* a slice one of whose bounds is absent (the other bound given, or the span not empty) *)
   Definition bound_given_or_nonempty (o : option label) : Prop := match o with Some _ => True | None => ls <> [] end.
@@ -589,7 +589,8 @@ Section Access.
     (exists x, a = Some x /\ pos x ls = None) \/ (start_pos ls a <> None /\ exists y, b = Some y /\ pos y ls = None) ->
     set_item_with lc st name (KSlice a b s) w = (st, Raise KeyError).
   Proof.
-    intros ND Ga Gb H. unfold set_item_with. rewrite (resolve_slice_missing a b s ND Ga Gb H). reflexivity.
+    intros ND Ga Gb H. unfold set_item_with. destruct (lookup name (c_vars st)); [|reflexivity].
+    rewrite (resolve_slice_missing a b s ND Ga Gb H). reflexivity.
   Qed.
 
   (* --- read paths: attribute, name key, position (either sign), label, full label slice all view the same stored vector --- *)
